@@ -125,7 +125,7 @@ func (p *plugin) applyQosClass(pod *api.PodSandbox, ctr *api.Container, cls stri
 		if class.Name == cls {
 			log.Tracef("applying SwapLimitRatio=%.2f on unified=%v", class.SwapLimitRatio, unified)
 			if class.SwapLimitRatio > 0 {
-				memLimitp := ctr.Linux.Resources.Memory.Limit
+				memLimitp := ctr.GetLinux().GetResources().GetMemory().GetLimit()
 				if memLimitp == nil {
 					return fmt.Errorf("missing container memory limit")
 				}
@@ -215,7 +215,7 @@ func (p *plugin) CreateContainer(ctx context.Context, pod *api.PodSandbox, ctr *
 				return nil, nil, errWithContext
 			}
 			class = value
-		case sliceContains(p.config.UnifiedAnnotations, annPrefix):
+		case p.config != nil && sliceContains(p.config.UnifiedAnnotations, annPrefix):
 			unified[annPrefix] = value
 			log.Tracef("applying unified annotation %q resulted in unified=%v", annPrefix, unified)
 		default:
